@@ -134,6 +134,57 @@ static void part_rot(const std::vector<unsigned>& ns, const std::vector<float>& 
     R.bound_done("rot: n x it x {precomputed, on the fly} x angles x 2 grid shifts x bilinear monomials of degree < it per axis");
 }
 
+// part=reuse : histories of ONE KickMap object that is given a new displacement field again and again (as the wake kick is, every step):
+// after every swapOffset()+apply() the output equals, bit for bit, that of a fresh map given the same field - whatever the object was used for before.
+static std::vector<float> reuse_field(int k, unsigned n, unsigned nb, bool yaxis) {
+    std::vector<float> f((size_t)n * (yaxis ? nb : 1));
+    for (size_t i = 0; i < f.size(); i++) { const int r = (int)(i % n), b = (int)(i / n);
+        switch (k) {
+            case 0: f[i] = 0.f; break;                                                  // no displacement at all
+            case 1: f[i] = (float)((r + b) % 7 - 3); break;                             // whole cells, some rows zero
+            case 2: f[i] = 0.25f * (float)((r + 2 * b) % 5) - 0.5f; break;              // fractions, some rows zero
+            case 3: f[i] = (r % 2) ? 1.5f + b : 0.f; break;                             // every second row exactly zero
+            case 4: f[i] = (r % 3 == 0) ? (float)n + 2.f : (r % 3 == 1 ? -1.f : 0.f); break;   // some rows kicked beyond the grid
+            default: f[i] = (r % 2 ? 1.f : -1.f) * ((float)(n / 2) - 0.25f * (r % 4)); break;  // about half the grid, either sign
+        } }
+    return f;
+}
+static void part_reuse(const std::vector<unsigned>& ns, unsigned depth) {
+    const int NF = 6;
+    for (unsigned n : ns) for (unsigned nb = 1; nb <= 2; nb++) for (unsigned it = 1; it <= 4; it++) for (int yaxis = 0; yaxis < 2; yaxis++) {
+        uint64_t total = 1; for (unsigned i = 0; i < depth; i++) total *= NF;
+        for (uint64_t code = 0; code < total; code++) {
+            std::vector<int> h(depth); { uint64_t c = code; for (unsigned i = 0; i < depth; i++) { h[depth - 1 - i] = c % NF; c /= NF; } }
+            bool rep = false; for (unsigned i = 1; i < depth; i++) if (h[i] == h[i - 1]) rep = true;
+            if (rep) continue;      // the same field twice in a row adds nothing
+            std::string hs; for (int v : h) hs += char('0' + v);
+            std::string kase = mcx::Desc()("part", "reuse")("n", n)("nb", nb)("it", it)("axis", yaxis ? "y" : "x")("fields", hs).str();
+            if (!R.mine(kase)) continue;
+            if (R.out_of_time()) { R.not_completed = kase; return; }
+            set_size(n, nb);
+            std::vector<float> dall((size_t)n * n * nb); for (size_t i = 0; i < dall.size(); i++) dall[i] = 0.5f + 0.001f * (float)((i * 7919u) % 1009u) - (i % 5 == 0 ? 1.f : 0.f);
+            auto in = mkps_shift(n, 12, 0, 0, even_filling(nb), dall.data()), out = mkps_shift(n, 12, 0, 0, even_filling(nb));
+            KickMap km(in, out, (SourceMap::InterpolationType)it, false, yaxis ? KickMap::Axis::y : KickMap::Axis::x, nullptr);
+            for (unsigned step = 0; step < depth; step++) {
+                auto f = reuse_field(h[step], n, nb, yaxis); auto f2 = f;
+                km.swapOffset(f); km.apply();
+                std::vector<float> got(out->getData(), out->getData() + dall.size());
+                auto in2 = mkps_shift(n, 12, 0, 0, even_filling(nb), dall.data()), out2 = mkps_shift(n, 12, 0, 0, even_filling(nb));
+                KickMap fresh(in2, out2, (SourceMap::InterpolationType)it, false, yaxis ? KickMap::Axis::y : KickMap::Axis::x, nullptr);
+                fresh.swapOffset(f2); fresh.apply();
+                R.eval(kase + " step=" + std::to_string(step), mcx::fnv(got.data(), 4 * got.size(), mcx::fnvs(kase) + step), step == 0);
+                if (memcmp(got.data(), out2->getData(), 4 * got.size()) != 0) {
+                    size_t bad = 0; for (size_t i = 0; i < got.size(); i++) if (memcmp(&got[i], out2->getData() + i, 4) != 0) bad++;
+                    R.violate(std::string("C02/KickMap/reused-map-differs-from-fresh/after-field-") + char('0' + (step ? h[step - 1] : h[step])), kase,
+                              "after fields " + hs.substr(0, step + 1) + ": " + std::to_string(bad) + " cells differ from a fresh map given field " + char('0' + h[step]));
+                    break;
+                }
+            }
+        }
+    }
+    R.bound_done("reuse: n x nb{1,2} x it x axis x every sequence of " + std::to_string(depth) + " displacement fields out of 6 (zero, whole, fractional, every second row zero, rows beyond the grid, half the grid) on ONE map object; after each, output == fresh map, bitwise");
+}
+
 int main(int argc, char** argv) {
     R.init(argc, argv, "C02", "C02_shift"); quiet();
     R.rule = "one evaluation = one application of the real KickMap/RotationMap; distinct = FNV of case + output grid; trivial = zero displacement / angle 0 on constant data";
@@ -142,5 +193,6 @@ int main(int argc, char** argv) {
     part_whole(T ? std::vector<unsigned>{8, 9, 16, 17, 32, 33} : std::vector<unsigned>{8, 9}, T ? std::vector<unsigned>{1, 2, 3} : std::vector<unsigned>{1, 2});
     part_poly(T ? std::vector<unsigned>{12, 13, 16, 33} : std::vector<unsigned>{12, 13}, T ? 256 : 16);
     part_rot(T ? std::vector<unsigned>{12, 13, 16} : std::vector<unsigned>{12, 13}, T ? std::vector<float>{0.f, 0.05f, -0.1f, 0.2617994f, 0.7853982f, 1.5707964f} : std::vector<float>{0.f, 0.1f, -0.2617994f});
+    part_reuse(T ? std::vector<unsigned>{8, 9} : std::vector<unsigned>{8}, D ? 4 : 3);
     return R.finish();
 }
